@@ -39,7 +39,7 @@ MODEL_FILES = ['SF/Hier.v', 'SF/HierVal.v']
 IMPORTS = 'Require Import SF.Prelude SF.PySlice SF.Dtype SF.Value SF.Hier SF.HierVal.'
 RULE = ('trees of depth 2..4 with ragged fan-out 1..6, labels drawn per depth from small pools (so inner labels repeat under different '
         'parents) in random order, per-depth kinds str/int/date; every construction route; selectors per depth from '
-        '{all, label, list, label slice} plus, at the innermost depth, label slices with a step (-2..2, ends biased to the first/last label of the leaf) and Boolean masks (also as whole key); iter_label(d) / iter_label([..]) observed first on every index (before the table is built) and right after every growth step; GO histories of append/extend/read: EXHAUSTIVE over {materialise, append-leaf, append-branch, extend}^(<=2 quick, <=3 thorough) from two start indices with the full probe battery (derive a new index through 7 public routes and observe all its views; HLoc of every selector kind; Series/Frame .loc[HLoc]) run immediately after every growth step, plus random longer histories with random probes. '
+        '{all, label, list, label slice} plus, at the innermost depth, label slices with a step (-2..2, ends biased to the first/last label of the leaf) and Boolean masks (also as whole key); iter_label(d) / iter_label([..]) observed first on every index (before the table is built) and right after every growth step; GO histories of append/extend/read: EXHAUSTIVE over {materialise, append-leaf, append-branch, extend}^(<=2 quick, <=3 thorough) from two start indices with the full probe battery (derive a new index through 7 public routes and observe all its views; HLoc of every selector kind; Series/Frame .loc[HLoc]) run immediately after every growth step, with one of the ~23 self-refreshing reads (values_at_depth(d), values, dtypes, nbytes, iloc, reversed, to_frame, deepcopy, relabel, isin, ==, display, roll, shape/size/depth/len...) rotated into FIRST position; EXHAUSTIVE stratum api:go:first: start x growth kind x every such read as the very first read after growth with the table materialised before; plus random longer histories with random probes. '
         'Exhaustive stratum (thorough tier, api:hloc:small): all 90 depth-2 trees with root labels a | a,b and leaf sequences of <= 2 distinct labels of {1,2,3} x every selector pair of the menu {:, label, ordered list of <= 2 labels, label slice with optional ends} (40500 keys) + one random innermost mask per tree; quick tier samples 700 of them; second exhaustive stratum api:hloc:small-step: 2 three-leaf trees (leaves of 2-4 labels, sorted and unsorted) and the 90 small trees x outer selector x stepped innermost slice (ends None|label, step -2,-1,1,2), 17k keys (quick: 500). '
         'non-trivial = the selection is non-empty and the tree has more than one leaf node; distinct = distinct (rows, route/key).')
 ASSUMPTIONS = [
@@ -195,6 +195,31 @@ def generate(repo):
             prev = body[i - 1]
             refresh_all = (isinstance(prev, ast.If) and ast.dump(prev.test) == d('self._recache') and len(prev.body) == 1
                            and isinstance(prev.body[0], ast.Expr) and ast.dump(prev.body[0].value) == d('self._update_array_cache()'))
+    # every `X._update_array_cache()` call in index_hierarchy.py sits directly under `if X._recache:`; the methods
+    # that refresh are listed, so a method that stops refreshing (or refreshes on another condition) changes the fact
+    refreshers, all_guarded = [], True
+    for cls_ in [n for n in ih.body if isinstance(n, ast.ClassDef)]:
+        for f in [n for n in cls_.body if isinstance(n, ast.FunctionDef)]:
+            guarded_calls, calls = 0, 0
+            for n in ast.walk(f):
+                if isinstance(n, ast.Call) and isinstance(n.func, ast.Attribute) and n.func.attr == '_update_array_cache':
+                    calls += 1
+            for n in ast.walk(f):
+                if isinstance(n, ast.If):
+                    for st_ in n.body:
+                        if (isinstance(st_, ast.Expr) and isinstance(st_.value, ast.Call) and isinstance(st_.value.func, ast.Attribute)
+                                and st_.value.func.attr == '_update_array_cache'):
+                            obj = ast.dump(st_.value.func.value)
+                            ok = (isinstance(n.test, ast.Attribute) and n.test.attr == '_recache' and ast.dump(n.test.value) == obj)
+                            guarded_calls += 1 if ok else 0
+            if calls:
+                refreshers.append(f'{cls_.name}.{f.name}')
+                if guarded_calls != calls:
+                    all_guarded = False
+    vad = find_func(find_class(ih, 'IndexHierarchy'), 'values_at_depth')
+    first = [st_ for st_ in vad.body if not (isinstance(st_, ast.Expr) and isinstance(st_.value, ast.Constant))][0]
+    vad_ok = (isinstance(first, ast.If) and ast.dump(first.test) == d('self._recache') and len(first.body) == 1
+              and isinstance(first.body[0], ast.Expr) and ast.dump(first.body[0].value) == d('self._update_array_cache()'))
     b = lambda x: 'true' if x else 'false'
     text = '\n'.join([
         '(* GENERATED on every run by tools/sfv/props/c05.py:generate from the AST of /repo -- do not edit. *)',
@@ -213,6 +238,9 @@ def generate(repo):
         f'Definition gen_contains_requires_key_end : bool := {b(ends and not plain_true)}.',
         f'Definition gen_ih_init_hands_over_blocks_only_if_fresh : bool := {b(fresh_only)}.',
         f'Definition gen_index_loc_refreshes_cache_for_every_key : bool := {b(refresh_all)}.',
+        f'Definition gen_ih_values_at_depth_refreshes_iff_recache : bool := {b(vad_ok)}.',
+        f'Definition gen_ih_every_cache_refresh_guarded_by_recache : bool := {b(all_guarded)}.',
+        f'Definition gen_ih_methods_refreshing_cache : list string := {lit.lst([lit.s(x) + "%string" for x in sorted(refreshers)])}.',
         f'Definition gen_go_append_sets_recache : bool := {b(sets_recache("append"))}.',
         f'Definition gen_go_extend_sets_recache : bool := {b(sets_recache("extend"))}.',
         '',
@@ -1132,7 +1160,84 @@ def derive(g, kind, n):
     raise ValueError(kind)
 
 
-def probe_battery(want, depth, order=0):
+def first_reads(depth):
+    '''Reads of the grown object that decide THEMSELVES whether to refresh the cached table (each has its own
+    `if self._recache:` in index_hierarchy.py) plus the cheap shape-like views; each is rotated into the FIRST
+    position after a growth step, as its own probe, so that no earlier read has refreshed the cache for it.'''
+    out = [('first', 'values_at_depth', d) for d in range(depth)]
+    out += [('first', nm, None) for nm in ('values', 'dtypes', 'nbytes', 'shape', 'size', 'depth', 'len', 'iloc_last', 'iloc_all',
+                                          'reversed', 'to_frame', 'deepcopy', 'relabel_identity', 'isin_last', 'eq_self', 'values_at_depth_list',
+                                          'display', 'drop_iloc_none', 'roll0', 'positions')]
+    return out
+
+
+def first_read(g, name, arg, want):
+    '''Perform one read; return a list of problems against the tuples `want` the grown object must denote.'''
+    import copy as _copy
+    n, depth = len(want), len(want[0])
+    rows_of = lambda it: [tuple(canon(x) for x in r) for r in it]
+    same = lambda got: [row_lit(r) for r in got] == [row_lit(r) for r in want]
+    if name == 'values_at_depth':
+        col = [canon(x) for x in lit.array_vals(g.values_at_depth(arg))]
+        return [] if [lab(x) for x in col] == [lab(r[arg]) for r in want] else [f'values_at_depth({arg}) has {len(col)} labels, the index has {n} tuples' if len(col) != n else f'values_at_depth({arg}) differs from the tuples']
+    if name == 'values_at_depth_list':
+        a = g.values_at_depth(list(range(depth)))
+        return [] if same(rows_of(a.tolist())) else [f'values_at_depth({list(range(depth))}) has {len(a)} rows, the index has {n} tuples']
+    if name == 'values':
+        return [] if same(rows_of(g.values.tolist())) else ['values differs from the tuples']
+    if name == 'dtypes':
+        v = g.dtypes
+        return [] if len(v) == depth else [f'dtypes has {len(v)} entries']
+    if name == 'nbytes':
+        a = g.nbytes
+        _ = g.values
+        return [] if a == g.nbytes else [f'nbytes {a} before, {g.nbytes} after the table is refreshed']
+    if name == 'shape':
+        return [] if tuple(g.shape) == (n, depth) else [f'shape {tuple(g.shape)} != {(n, depth)}']
+    if name == 'size':
+        return [] if g.size == n * depth else [f'size {g.size} != {n * depth}']
+    if name == 'depth':
+        return [] if g.depth == depth else [f'depth {g.depth}']
+    if name == 'len':
+        return [] if len(g) == n else [f'len {len(g)} != {n}']
+    if name == 'positions':
+        return [] if list(g.positions) == list(range(n)) else [f'positions has {len(g.positions)} entries']
+    if name == 'iloc_last':
+        got = tuple(canon(x) for x in g.iloc[n - 1])
+        return [] if row_lit(got) == row_lit(want[-1]) else [f'iloc[{n - 1}] = {got}']
+    if name == 'iloc_all':
+        return [] if same(rows_of(g.iloc[list(range(n))])) else ['iloc[all positions] differs from the tuples']
+    if name == 'reversed':
+        got = rows_of(reversed(g))
+        return [] if [row_lit(r) for r in got] == [row_lit(r) for r in reversed(want)] else [f'reversed() yields {len(got)} tuples']
+    if name == 'to_frame':
+        f = g.to_frame()
+        return [] if same(rows_of(f.values.tolist())) else [f'to_frame() has shape {f.shape}']
+    if name == 'deepcopy':
+        c = _copy.deepcopy(g)
+        return ([] if same(rows_of(c)) else ['deepcopy iterates differently']) + ([] if same(rows_of(c.values.tolist())) else [f'deepcopy().values has {len(c.values)} rows'])
+    if name == 'relabel_identity':
+        return [] if same(rows_of(g.relabel(lambda x: tuple(x)))) else ['relabel(identity) differs from the tuples']
+    if name == 'isin_last':
+        a = g.isin([want[-1]])
+        return [] if [bool(x) for x in a] == [i == n - 1 for i in range(n)] else [f'isin([last]) has {len(a)} entries / wrong mask']
+    if name == 'eq_self':
+        a = (g == g.values)
+        return [] if a.shape == (n, depth) and bool(a.all()) else [f'(g == g.values) has shape {a.shape}']
+    if name == 'display':
+        txt = str(g.display())
+        return [] if all(str(jl(want[-1][d])) in txt for d in range(depth) if not isinstance(want[-1][d], np.datetime64)) and txt.count('\n') >= n else [f'display() shows {txt.count(chr(10))} lines for {n} tuples']
+    if name == 'drop_iloc_none':
+        if n < 2:
+            return []
+        got = rows_of(g._drop_iloc(0)) if hasattr(g, '_drop_iloc') else None
+        return [] if got is None or [row_lit(r) for r in got] == [row_lit(r) for r in want[1:]] else ['dropping position 0 does not give the other tuples']
+    if name == 'roll0':
+        return [] if same(rows_of(g.roll(0))) else ['roll(0) differs from the tuples']
+    raise ValueError(name)
+
+
+def probe_battery(want, depth, order=0, first=None):
     '''Everything that is observed IMMEDIATELY after a growth step, before any other read of the grown object:
     HLoc selections of every selector kind (incl. `:` / omitted / open label slice at the innermost depth),
     Series/Frame .loc[HLoc] on containers indexed by the grown object, and new indices derived from it.'''
@@ -1154,11 +1259,12 @@ def probe_battery(want, depth, order=0):
     pe = [('extract', pre + [('all',)]), ('extract', [('all',)] * (depth - 1) + [('one', r[-1])])]
     pd = [('derive', k) for k in DERIVE_KINDS]
     pm = [('hloc', k) for k in masks]
+    head = [first] if first is not None else []
     if order == 0:
-        return ph + pe + pd[:-1] + pm + pd[-1:]
+        return head + ph + pe + pd[:-1] + pm + pd[-1:]
     if order == 1:
-        return ph[:1] + pd[:-1] + ph[1:] + pe + pm + pd[-1:]
-    return ph[:1] + pe + pd[:-1] + ph[1:] + pm + pd[-1:]
+        return head + ph[:1] + pd[:-1] + ph[1:] + pe + pm + pd[-1:]
+    return head + ph[:1] + pe + pd[:-1] + ph[1:] + pm + pd[-1:]
 
 
 def run_probes(ctx, g, probes, want):
@@ -1166,7 +1272,13 @@ def run_probes(ctx, g, probes, want):
     n = len(want)
     raw = []
     for i, p in enumerate(probes):
-        if p[0] == 'iter_label':
+        if p[0] == 'first':
+            try:
+                res = first_read(g, p[1], p[2], want)
+            except Exception as e:  # noqa
+                res = [f'raised {type(e).__name__}: {e}'[:200]]
+            raw.append(('first', i, (p[1], p[2]), res))
+        elif p[0] == 'iter_label':
             raw.append(('iter_label', i, None, iter_label_observe(g, len(want[0]))))
         elif p[0] == 'hloc':
             raw.append(('hloc', i, p[1], hloc_observe(g, p[1], n)))
@@ -1239,7 +1351,15 @@ def derived_case(ctx, kind, obj, want, stratum, extra):
 def probe_cases(ctx, g, raw, tree_after, want, stratum, steps_json):
     for kind, i, arg, res in raw:
         extra = {'history': steps_json, 'probe': i, 'probed': 'immediately after the last step'}
-        if kind == 'iter_label':
+        if kind == 'first':
+            nm = arg[0] + (f'({arg[1]})' if arg[1] is not None else '')
+            ctx.count(f'go:first-read:{arg[0]}')
+            yield Case(stratum + ':first_read_after_growth',
+                       dict(extra, first_read=nm, rows=[[jl(x) for x in r] for r in want],
+                            observe=f'{nm} as read number {i + 1} after the last step (nothing else has read the grown object before it)' if i else f'{nm} as the FIRST read after the last step'),
+                       py_fail=('; '.join(res))[:400] or None, tags={'op': 'first_read', 'read': arg[0], 'position': i},
+                       key=f'first|{nm}|{i}|{rows_lit(want)}|{json_key(steps_json)}')
+        elif kind == 'iter_label':
             yield from iter_label_cases(ctx, g, tree_after, want, 'go-grown', stratum + ':iter_label_after_growth',
                                         {'history': steps_json, 'rows': [[jl(x) for x in r] for r in want]}, {'op': 'iter_label'}, obs=res)
         elif kind == 'hloc':
@@ -1425,7 +1545,8 @@ def random_probes(rng, want, kinds):
     rng.shuffle(chosen)
     if rng.random() < 0.3:
         chosen.append(('derive', 'copy'))
-    return [('iter_label',)] + chosen
+    head = [rng.choice(first_reads(depth))] if rng.random() < 0.6 else []
+    return head + [('iter_label',)] + chosen
 
 
 def short_history_cases(ctx):
@@ -1444,6 +1565,7 @@ def short_history_cases(ctx):
         if ctx.tier == 'quick':      # + a sample of the length-3 words (all of them in the thorough tier)
             w3 = [w for w in it.product(alphabet, repeat=3) if any(x != 'M' for x in w)]
             words += ctx.rng.sample(w3, ctx.n(8, 8))
+        frs = first_reads(depth)
         for w in words:
             hid += 1
             ref = list(rows0)
@@ -1458,25 +1580,51 @@ def short_history_cases(ctx):
                     new = [l for l in POOLS[kinds[-1]] if jl(l) not in used][0]
                     key = tuple(last[:-1]) + (new,)
                     ref = ref + [key]
-                    script.append(('append', key, 'leaf', probe_battery(ref, depth, order=(hid + j) % 3)))
+                    script.append(('append', key, 'leaf', probe_battery(ref, depth, order=(hid + j) % 3, first=frs[(hid * 5 + j) % len(frs)])))
                 elif a == 'Ab':
                     used = {jl(x[0]) for x in ref}
                     new = [l for l in POOLS[kinds[0]] + ['f', 'g', 'h'] if jl(l) not in used][0]
                     key = (new,) + tuple(last[1:])
                     ref = ref + [key]
-                    script.append(('append', key, 'branch', probe_battery(ref, depth, order=(hid + j) % 3)))
+                    script.append(('append', key, 'branch', probe_battery(ref, depth, order=(hid + j) % 3, first=frs[(hid * 5 + j) % len(frs)])))
                 else:
                     used = {jl(x[0]) for x in ref}
                     new = [l for l in ['p', 'q', 'r', 's'] if l not in used][0]
                     orows = [(new,) + tuple(rows0[0][1:]), (new,) + tuple(rows0[1][1:])]
                     ref = ref + orows
-                    script.append(('extend', orows, 'valid', probe_battery(ref, depth, order=(hid + j) % 3)))
+                    script.append(('extend', orows, 'valid', probe_battery(ref, depth, order=(hid + j) % 3, first=frs[(hid * 5 + j) % len(frs)])))
             ctx.count(f'go:short:{len(w)}')
             yield from go_history(ctx, ctx.rng, rows0, kinds, script, stratum='api:go:short')
 
 
+def first_read_cases(ctx):
+    '''EXHAUSTIVE: for both start indices, each growth kind (append leaf / append branch / extend), with the table
+    materialised before (and, as control, not materialised), EVERY first read of first_reads() is performed as the very
+    first read after the growth step.'''
+    starts = [([('a', 1), ('a', 2), ('b', 1)], ['str', 'int']),
+              ([('a', 1, 'x'), ('a', 1, 'y'), ('b', 2, 'x')], ['str', 'int', 'str'])]
+    for rows0, kinds in starts:
+        depth = len(kinds)
+        last = rows0[-1]
+        grow = {
+            'Al': ('append', tuple(last[:-1]) + ({'int': 9, 'str': 'z'}[kinds[-1]],), 'leaf'),
+            'Ab': ('append', ('k',) + tuple(last[1:]), 'branch'),
+            'E': ('extend', [('p',) + tuple(rows0[0][1:]), ('p',) + tuple(rows0[1][1:])], 'valid'),
+        }
+        for gname, gop in grow.items():
+            want = list(rows0) + ([gop[1]] if gop[0] == 'append' else list(gop[1]))
+            for fr in first_reads(depth):
+                for materialise in ((True,) if ctx.tier == 'quick' and fr[1] not in ('values_at_depth', 'dtypes', 'nbytes') else (True, False)):
+                    script = ([('read', 'values', 0)] if materialise else []) + [gop + ([fr, ('iter_label',)],)]
+                    ctx.count('go:first-read-history')
+                    for c in go_history(ctx, ctx.rng, rows0, kinds, script, stratum='api:go:first'):
+                        if c.kind.endswith(':first_read_after_growth') or c.py_fail:
+                            yield c
+
+
 def go_cases(ctx):
     rng = ctx.rng
+    yield from first_read_cases(ctx)
     yield from short_history_cases(ctx)
     for _ in range(ctx.n(30, 300)):
         depth = rng.choice([2, 3, 3, 4])
